@@ -77,12 +77,18 @@ def proof_stage(pid, tier):
     if r.returncode != 0:
         res["detail"] = "make failed: " + (r.stdout + r.stderr)[-1500:]
         return res
-    # the output of the property file (Print Assumptions, pinned statements) is cached per compiled file:
-    # it is re-computed whenever make rebuilt the .vo (any change to the file or to what it depends on)
+    # the output of the property file (Print Assumptions, pinned statements) is cached per compiled file.  When make
+    # has just (re)compiled the file, what it printed is that output; otherwise the cache written by the run that
+    # compiled it is used, and if there is none the file is compiled once more by hand.
     vo = os.path.join(COQ, "theories", "Props", pid + ".vo")
     cache = os.path.join(ROOT, "work", "proofcache", pid + ".out")
     os.makedirs(os.path.dirname(cache), exist_ok=True)
-    if os.path.exists(cache) and os.path.exists(vo) and os.path.getmtime(cache) >= os.path.getmtime(vo) \
+    marker = "COQC theories/Props/%s.v" % pid
+    if marker in r.stdout:
+        out = r.stdout[r.stdout.index(marker):]
+        with open(cache, "w") as f:
+            f.write(out)
+    elif os.path.exists(cache) and os.path.exists(vo) and os.path.getmtime(cache) >= os.path.getmtime(vo) \
             and os.path.getmtime(cache) >= os.path.getmtime(pf):
         out = open(cache).read()
     else:
